@@ -103,6 +103,9 @@ func parsePgpPrivateKey(blob []byte, prompt passprompt.PasswordGetter) (crypto.P
 		return nil, errors.New("file does not contain a private key")
 	}
 	if entity.PrivateKey.Encrypted {
+		if prompt == nil {
+			return nil, errors.New("private key is encrypted and no password was provided")
+		}
 		fmt.Fprintln(os.Stderr, "Key fingerprint:", entity.PrimaryKey.KeyIdString())
 		for name := range entity.Identities {
 			fmt.Fprintln(os.Stderr, "UID:", name)
